@@ -195,6 +195,18 @@ def main(argv):
         bad += 1
         unsound += 1
         print(f"FAIL    unit alpha_eq                                                          UNSOUND: {unit}")
+    # differential testing against CPython: a small fixed-seed run of selftest/fuzz.py (random programs of the supported subset,
+    # concrete inputs, CPython's result as the postcondition, a wrong result as the false postcondition)
+    if not pats and os.environ.get("SELFTEST_FUZZ", "1") != "0":
+        from selftest import fuzz
+
+        fr = fuzz.run(60, 20261002, n_inputs=2, out=lambda *a: None)
+        if fr["bugs"]:
+            bad += 1
+            unsound += sum(1 for b in fr["bugs"] if b[1] == "BUG-unsound")
+            print(f"FAIL    fuzz (seed 20261002, 60 programs)                                        {[(items_[1], items_[2][:80]) for items_ in fr['bugs'][:3]]}")
+        else:
+            print(f"ok      fuzz (seed 20261002)                                                   programs={fr['programs']} inputs={fr['inputs']} obligations={fr['clauses']} {fr['counts']}")
     # solver regression files: satisfiable inputs on which a solver of the portfolio is known to answer `unsat`;
     # the confirmation step of pyvc.solve must turn that into `disagree` (never `proved`)
     import shutil
